@@ -28,7 +28,7 @@ fixtab = "\n".join(f"| `{l.split(' ',1)[0]}` | {l.split(' ',1)[1]} |" for l in f
 tpl = re.sub(r"\| commit \| what \|\n\|---\|---\|\n(?:\|.*\|\n)+", "| commit | what |\n|---|---|\n" + fixtab + "\n", tpl)
 
 rows = []
-missed1 = []; nfi1 = []; missed3 = []; nfi3 = []; missed4 = []; nfi4 = []; missed5 = []; nfi5 = []; missed6 = []; nfi6 = []; missed7 = []; nfi7 = []; missed8 = []; nfi8 = []
+missed1 = []; nfi1 = []; missed3 = []; nfi3 = []; missed4 = []; nfi4 = []; missed5 = []; nfi5 = []; missed6 = []; nfi6 = []; missed7 = []; nfi7 = []; missed8 = []; nfi8 = []; missed9 = []; nfi9 = []
 for f in sorted(glob.glob(V + '/seeded/*/meta.json')):
     m = json.load(open(f))
     ch = re.sub(r'^(Change|C\d\d change|#+)\s*\d*\s*[-:–—.]?\s*', '', m['change']).strip()
@@ -45,6 +45,9 @@ for f in sorted(glob.glob(V + '/seeded/*/meta.json')):
     if m.get('round') == 8:
         if first == 'missed': missed8.append(m['id'])
         if first == 'caught, no input': nfi8.append(m['id'])
+    if m.get('round') == 9:
+        if first == 'missed': missed9.append(m['id'])
+        if first == 'caught, no input': nfi9.append(m['id'])
     elif m.get('round') == 7:
         if first == 'missed': missed7.append(m['id'])
         if first == 'caught, no input': nfi7.append(m['id'])
@@ -73,7 +76,7 @@ for f in sorted(glob.glob(V + '/seeded/*/meta.json')):
         stren.append(f"* **{m['id']}** – {sw}")
 seeded = f'''### 13.7 Seeded breaking changes and which checks catch them
 
-Three hundred and twenty changes, sixteen per property, in eight rounds.  Each was written by a fresh sub-agent that saw
+Three hundred and sixty changes, eighteen per property, in nine rounds.  Each was written by a fresh sub-agent that saw
 only the text of one property and a scratch worktree (nothing from /verif), was asked for a
 plausible maintainer edit that needs something specific to manifest, and was confirmed by hand in
 a scratch worktree: applies to HEAD, builds, the whole existing suite passes, the demonstration
@@ -169,9 +172,20 @@ helpful message, a lenient mode) per property.  {40 - len(missed8) - len(nfi8)} 
 {len(nfi8)} only as a broken obligation ({', '.join(nfi8)}) and {len(missed8)} were missed ({', '.join(missed8)}): a
 byte-order-mark check that slices files shorter than three bytes, an error page name trimmed by the
 *characters* of the extension, template names cut by index when the template directory is the
-working directory, and a debug-mode reload that forgets that layouts are not pages.  Now all three
-hundred and twenty are reported by the quick check of their own property with a concrete failing
-input as replay.
+working directory, and a debug-mode reload that forgets that layouts are not pages.
+
+Round 9 (ids `-17`, `-18`) asked for one *bug fix or robustness hardening* for a neighbouring issue
+(trimming or normalising an input, guarding a nil, tolerating a malformed construct, a friendlier
+message) whose side effect breaks the property, and one *readability refactor* with no intended
+change of behaviour (a method extracted or inlined, a loop replaced by a library call, two near-duplicate
+paths merged, an if-chain turned into a table).  {40 - len(missed9) - len(nfi9)} of 40 were caught at once with a concrete failing
+input, {len(nfi9)} only as a broken correspondence ({', '.join(nfi9)}) and {len(missed9)} were missed ({', '.join(missed9)}): a
+`fmt.Stringer` shortcut of the data conversion that calls `String()` on nil `*time.Time` / `*url.URL`
+values, and a hand-written integer test that takes a lone sign for a number (`"-".decimal()`).  One
+change of the round (C16, the path of a template read through the mode flag again) undoes the repair
+`0bd9d10` of an earlier finding; the check reports it like any other violation (a `fixed` entry of the
+known-findings file suppresses nothing).  Now all three hundred and sixty are reported by the quick
+check of their own property with a concrete failing input as replay.
 
 What was added for the ones not caught (or caught without an input) at first:
 
@@ -187,7 +201,7 @@ What was added for the ones not caught (or caught without an input) at first:
   same tree from two token lists that differ in positions only is shown on the printer's image.
 * C03: the passes of a loop are computed for bodies of text and plain variables; for other bodies they
   are hypotheses of the relational description.
-* C05: interleavings of text with code blocks other than `{{ name }}` and with directives as one theorem.
+* C05: interleavings of text with code blocks other than `{{ name }}` and with directives as one theorem: the end-to-end theorems are per family (text with comments and prints; with `@if`/`@else`; with `@elseif` chains; with `@each`; a page with its layout; a page with its components; `{{{{ k.f }}}}`), each closed under repetition but not under nesting into one another; inside chains the texts exclude "{{", "@" and backslash, string literals in directive arguments exclude their own quote and the backslash.
 * C11: numeric conversions against a real-number specification.
 * the evaluator's fuel is a constant (10^5): theorems about whole renders carry a size bound.
 '''
